@@ -160,13 +160,15 @@ class PollModel(e1_history.Model):
                     continue
                 if op in ('dcr', 'ccr', 'ccx') and g['gen'][i] >= 1:
                     continue    # one reuse per socket
+                if op in ('ldisc', 'lremr') and not (g['closed_undiscarded'][i] and g['late'][i] < 1):
+                    continue    # late discard/remove of the object that was closed without discard
                 out.append((op, i))
         return out
 
     def ghost(self, hist):
         n = self.nsock
         g = {'roles': [set() for _ in range(n)], 'peer_open': [True] * n, 'has_data': [False] * n, 'filled': [False] * n,
-             'gen': [0] * n, 'removed_once': [0] * n, 'peer_full': [False] * n, 'gone': [False] * n}
+             'gen': [0] * n, 'removed_once': [0] * n, 'peer_full': [False] * n, 'gone': [False] * n, 'closed_undiscarded': [False] * n, 'late': [0] * n}
         for op, i in hist:
             if op == 'addReader':
                 g['roles'][i].add('r')
@@ -201,7 +203,10 @@ class PollModel(e1_history.Model):
                 g['gen'][i] += 1
                 g['gone'][i] = True
                 g['peer_open'][i], g['has_data'][i], g['filled'][i] = False, False, False
+            elif op in ('ldisc', 'lremr'):
+                g['late'][i] += 1
             elif op == 'ccr':
+                g['closed_undiscarded'][i] = True
                 g['roles'][i] = {'r'}
                 g['gen'][i] += 1
                 g['peer_open'][i], g['has_data'][i], g['filled'][i] = True, False, False
@@ -256,6 +261,14 @@ class PollModel(e1_history.Model):
                 pass
         elif name == 'peer_close':
             sd.peer.close()
+        elif name in ('ldisc', 'lremr'):
+            # the application tidies up late: the socket object it closed earlier (number reused meanwhile)
+            dead = [d for (j, d) in getattr(sub, 'dead_side', []) if j == i]
+            if dead:
+                try:
+                    (po.discard if name == 'ldisc' else po.removeReader)(dead[-1])
+                except (ValueError, OSError):
+                    pass    # the call itself may refuse a closed object; what the poller reports afterwards is judged
         elif name == 'ccx':
             # closed WITHOUT discard; its number is taken over by a descriptor the poller was never told about
             import os
@@ -280,6 +293,7 @@ class PollModel(e1_history.Model):
                 sd.peer.close()
             except OSError:
                 pass
+            sub.dead_side = getattr(sub, 'dead_side', []) + [(i, old)]
             sub.dead.append(old)
             new = Side()
             if new.peer.fileno() == oldno:
@@ -411,12 +425,12 @@ class PollModel(e1_history.Model):
 
 
 FULL_OPS = ['addReader', 'addWriter', 'removeReader', 'removeWriter', 'discard', 'peer_write', 'drain', 'fill', 'unfill',
-            'peer_close', 'dcr', 'ccr', 'ccx']
-SMALL_OPS = ['addReader', 'addWriter', 'removeWriter', 'discard', 'peer_write', 'dcr']
+            'peer_close', 'dcr', 'ccr', 'ccx', 'ldisc']
+SMALL_OPS = ['addReader', 'addWriter', 'removeWriter', 'discard', 'peer_write', 'dcr', 'ccr', 'ldisc']
 
 
 def run(tier, seed, workers):
-    plan = [(1, FULL_OPS, 8), (2, SMALL_OPS, 5), (2, FULL_OPS, 3)] if tier == 'quick' else [(1, FULL_OPS, 12), (2, SMALL_OPS, 8), (2, FULL_OPS, 6)]
+    plan = [(1, FULL_OPS, 7), (2, SMALL_OPS, 4), (2, FULL_OPS, 3)] if tier == 'quick' else [(1, FULL_OPS, 12), (2, SMALL_OPS, 8), (2, FULL_OPS, 6)]
     total = core.Stats()
     states = 0
     for nsock, ops, depth in plan:
